@@ -22,7 +22,7 @@ def run(ctx):
         lops, _ = C03.gen_ops(ctx, scale)
         dis["lex"] = common.run_stream(ctx, "lex", lops[: 3000 * scale])
         dis["tok"] = common.run_stream(ctx, "tok", robust.tok_ops(ctx, 1500 * scale, bcs), cwd=wd)
-    robust.replay_findings(ctx, [])
+    regress = robust.replay_findings(ctx, [])
     n = ctx.pick(2500, 25000)
     texts, kinds = robust.gen_texts(ctx, n)
     failures, stats = robust.sweep(ctx, texts, [[], ["-i"]], {"panic", "exit", "lines"}, "ti-and-ti-i")
@@ -35,7 +35,7 @@ def run(ctx):
         f2, _ = robust.sweep(ctx, more, [[], ["-i"]], {"panic", "exit", "lines"}, "search")
         return f2
 
-    common.conclude(ctx, proof_ok, dis, failures, search)
+    common.conclude(ctx, proof_ok, dis, regress + failures, search)
     evidence(ctx)
 
 
